@@ -76,4 +76,11 @@ func init() {
 	add("C17", "Memory is flow-insensitive except for private cells (a field of a local variable whose address never leaves the function), which are read through reaching definitions: a write after the field was re-pointed to a fresh slice on every path is a write into the copy.", "")
 	add("C15", "R15k (= R11k): the tracker's and the verifier's simulation of the empty roots that additions write over (clones of one loop nest) have the same control structure over their inputs named by role - early exits, loop bounds, the test under which a position is recorded.", "")
 	add("C11", "R11k: see R15k - the simulation behind UpdateData.ToDestroy agrees in control structure with its clone in the caching-schedule tracker.", "")
+	add("C06", "R06i: in the deletion-undo of the map forest the step that moves a climbed subtree back down runs under the reviewed existence test of the sibling position, never under the result of a node-store look-up.", "")
+	add("C09", "R09j = R06i.", "")
+	add("C08", "R08h: a slice filled slot by slot from another list is not read again after that list, or the struct holding it, was sorted or handed by address to a method that may insert or delete.", "")
+	add("C12", "R12i: a function that acquires the lock and makes any call inside the section releases it with defer.", "")
+	add("C13", "R13l: every receiver field the map forest's restore function stores from a value read off the stream is stored on every path that goes on after the read. R13m: a struct field that memoizes a computed value is stored by every exported method that changes the struct.", "")
+	add("C14", "R14b also reports a sorted list with another sorted list appended behind it (order class 'concatenation') at a requires-sorted function.", "")
+	add("C15", "R15l: in delRootInfo the outermost loop around the step that marks a tracked root as emptied is left only through its own bound.", "")
 }
